@@ -182,7 +182,32 @@ type tlScenario struct {
 
 // finalChecks: properties that must hold after every run, whatever the scenario. The context must
 // already be cancelled and all blocking tasks released.
+// runs whose lane has been waited for: nothing of theirs may start later, whatever lanes are built afterwards
+var tlOldRuns []tlOldRun
+
+type tlOldRun struct {
+	r  *tlRun
+	sc tlScenario
+}
+
+// tlRecheckOldRuns: at the end of a stream, no task of an earlier, finished lane has been started since.
+func tlRecheckOldRuns(s *Stream) {
+	for _, o := range tlOldRuns {
+		_, _, _, afterWait := o.r.snapshot()
+		if len(afterWait) > 0 {
+			s.Violate("start-after-wait", fmt.Sprintf("tasks %v of a lane were started after its Wait() had returned (by a lane built later?)", afterWait), o.sc)
+			break
+		}
+	}
+	tlOldRuns = nil
+}
+
 func tlFinalChecks(s *Stream, sc tlScenario, tl *tasklane.TaskLane, r *tlRun, pushes []tlPush, cancelled context.Context) {
+	defer func() {
+		if len(tlOldRuns) < 400 {
+			tlOldRuns = append(tlOldRuns, tlOldRun{r, sc})
+		}
+	}()
 	if !waitLane(tl, r) {
 		_, dump := laneGoroutinesGone()
 		s.Violate("wait-does-not-return", "Wait() did not return within the watchdog after cancel with no task running", map[string]any{"scenario": sc, "goroutines": dump})
@@ -1147,6 +1172,27 @@ func tlOddLifetimes(s *Stream, rng *Rng, L, Q int) {
 		s.Nontrivial(fmt.Sprintf("deadline-cancelled-early/%d/%d", L, Q))
 	}
 	tlPanicAfterCancel(s, rng, L, Q)
+	// (i) a lane that has recovered many panics (nobody ever asked about them) shuts down like any other
+	if Q == 1 {
+		sc := tlScenario{Kind: "many-panics-then-cancel", L: L, Q: Q}
+		ctx, cancel := context.WithCancel(context.Background())
+		tl := tasklane.New(ctx, L, Q)
+		tl.SetTimeout(tlDeadline)
+		r := newTLRun()
+		var pushes []tlPush
+		for i := 0; i < 60; i++ {
+			t := &tlTask{id: i, r: r, pv: fmt.Sprintf("panic %d", i)}
+			pushes = append(pushes, tlPush{i, i % L, tl.PushTask(t, i%L)})
+			if i%8 == 7 {
+				waitUntil(tlDeadline, func() bool { _, fin, _, _ := r.snapshot(); return fin >= i-L })
+			}
+		}
+		waitUntil(3*time.Second, func() bool { _, fin, _, _ := r.snapshot(); return fin == 60 })
+		cancel()
+		tlFinalChecks(s, sc, tl, r, pushes, ctx)
+		s.Evaluations++
+		s.Nontrivial(fmt.Sprintf("many-panics-then-cancel/%d", L))
+	}
 	// (c)
 	{
 		sc := tlScenario{Kind: "goexit-task", L: L, Q: Q}
@@ -1221,6 +1267,35 @@ func tlStuckLanes(s *Stream, rng *Rng, L, Q int) {
 	s.Nontrivial(fmt.Sprintf("stuck-lanes/%d/%d/%d/%d", L, Q, perLane, freed))
 }
 
+// ---- scenario: many lanes, everything pushed to one of them (C08) ------------------------------------------
+
+// tlWide: L lanes (16..32); L long tasks all pushed to lane 0 must all run at the same time, which takes every
+// worker of every lane listening for shared work - however the goroutines were scheduled while the lane was built.
+func tlWide(s *Stream, rng *Rng, L int) {
+	sc := tlScenario{Kind: "wide-lane", L: L, Q: 1, Seed: rng.s}
+	ctx, cancel := context.WithCancel(context.Background())
+	defer cancel()
+	tl := tasklane.New(ctx, L, 1)
+	tl.SetTimeout(tlDeadline)
+	r := newTLRun()
+	var pushes []tlPush
+	hold := make(chan struct{})
+	for i := 0; i < L; i++ {
+		t := &tlTask{id: i, r: r, block: hold}
+		pushes = append(pushes, tlPush{i, 0, tl.PushTask(t, 0)})
+	}
+	if !waitUntil(tlDeadline, func() bool { return r.startedCount() == L }) {
+		sc.Detail = fmt.Sprintf("%d long tasks pushed to lane 0 of a fresh %d-lane TaskLane: only %d run at the same time", L, L, r.startedCount())
+		s.Violate("head-of-line-blocking", sc.Detail, sc)
+	}
+	close(hold)
+	waitUntil(tlDeadline, func() bool { _, fin, _, _ := r.snapshot(); return fin == L })
+	cancel()
+	tlFinalChecks(s, sc, tl, r, pushes, ctx)
+	s.Evaluations++
+	s.Nontrivial(fmt.Sprintf("wide/%d", L))
+}
+
 // ---- scenario: a long task at the head of a lane with short ones behind it (C08) -------------------
 
 // All workers busy; lane t receives a long task X and then short tasks. One worker is freed and takes X;
@@ -1238,17 +1313,28 @@ func tlBacklog(s *Stream, rng *Rng, L, Q int) {
 	}
 	r := newTLRun()
 	var pushes []tlPush
+	target := rng.Intn(L)
+	warm := 0
+	if rng.Intn(2) == 0 {
+		// the lane has a history: a trickle of tiny tasks on the target lane, each taken by its own worker at once
+		warm = 20 + rng.Intn(60)
+		for i := 0; i < warm; i++ {
+			t := &tlTask{id: 5000 + i, r: r}
+			pushes = append(pushes, tlPush{t.id, target, tl.PushTask(t, target)})
+			waitUntil(tlDeadline, func() bool { _, fin, _, _ := r.snapshot(); return fin == i+1 })
+		}
+		sc.Detail += fmt.Sprintf("after a trickle of %d tiny tasks on lane %d; ", warm, target)
+	}
 	rel := make([]chan struct{}, L)
 	for i := 0; i < L; i++ {
 		rel[i] = make(chan struct{})
 		t := &tlTask{id: 9000 + i, r: r, block: rel[i]}
 		pushes = append(pushes, tlPush{t.id, i, tl.PushTask(t, i)})
 	}
-	if !waitUntil(tlDeadline, func() bool { return r.startedCount() == L }) {
-		s.Violate("accepted-task-not-started", fmt.Sprintf("only %d of %d long tasks started with all workers idle", r.startedCount(), L), sc)
+	if !waitUntil(tlDeadline, func() bool { return r.startedCount() == L+warm }) {
+		s.Violate("accepted-task-not-started", fmt.Sprintf("only %d of %d long tasks started with all workers idle", r.startedCount()-warm, L), sc)
 		return
 	}
-	target := rng.Intn(L)
 	relX := make(chan struct{})
 	x := &tlTask{id: 8000, r: r, block: relX}
 	pushes = append(pushes, tlPush{x.id, target, tl.PushTask(x, target)})
@@ -1284,7 +1370,7 @@ func tlBacklog(s *Stream, rng *Rng, L, Q int) {
 			close(rel[i])
 		}
 	}
-	waitUntil(tlDeadline, func() bool { _, fin, _, _ := r.snapshot(); return fin == m+L+1 })
+	waitUntil(tlDeadline, func() bool { _, fin, _, _ := r.snapshot(); return fin == m+L+1+warm })
 	cancel()
 	tlFinalChecks(s, sc, tl, r, pushes, ctx)
 	s.Evaluations++
@@ -1309,7 +1395,7 @@ func tlAfterPanics(s *Stream, rng *Rng, L int) {
 	}
 	waitUntil(tlDeadline, func() bool { return r.startedCount() == L-1 })
 	const limit = 3 * time.Second
-	n := 18
+	n := 42
 	for i := 0; i < n; i++ {
 		t := &tlTask{id: i, r: r}
 		if i < n-2 {
@@ -1326,10 +1412,62 @@ func tlAfterPanics(s *Stream, rng *Rng, L int) {
 	}
 	close(release)
 	waitUntil(tlDeadline, func() bool { return tl.Status().PendingTask == 0 })
+	if !tlEnough(s) {
+		// panics on every lane at the same instant, several rounds; afterwards every one of the L workers is still
+		// there: L blocking tasks all run at the same time
+		const rounds = 400
+		for round := 0; round < rounds; round++ {
+			gate := make(chan struct{})
+			for lane := 0; lane < L; lane++ {
+				t := &tlTask{id: 10000 + round*10 + lane, r: r, block: gate, pv: fmt.Sprintf("round %d lane %d", round, lane)}
+				pushes = append(pushes, tlPush{t.id, lane, tl.PushTask(t, lane)})
+			}
+			allStarted := waitUntil(tlDeadline, func() bool {
+				for lane := 0; lane < L; lane++ {
+					if !r.isStarted(10000 + round*10 + lane) {
+						return false
+					}
+				}
+				return true
+			})
+			close(gate)
+			if !allStarted {
+				sc.Detail = fmt.Sprintf("after %d recovered panics (%d rounds of panics raised on all %d lanes at the same instant): %d tasks, one per lane, do not all run at the same time - a worker is gone", n-2+round*L, round, L, L)
+				s.Violate("head-of-line-blocking", sc.Detail, sc)
+				break
+			}
+			waitUntil(tlDeadline, func() bool { _, _, _, _ = r.snapshot(); return tl.Status().PendingTask == 0 && r.runningNow() == 0 })
+		}
+		hold := make(chan struct{})
+		for lane := 0; lane < L && !tlEnough(s); lane++ {
+			t := &tlTask{id: 2000 + lane, r: r, block: hold}
+			pushes = append(pushes, tlPush{t.id, lane, tl.PushTask(t, lane)})
+		}
+		all := waitUntil(tlDeadline, func() bool {
+			for lane := 0; lane < L; lane++ {
+				if !r.isStarted(2000 + lane) {
+					return false
+				}
+			}
+			return true
+		})
+		if !all && !tlEnough(s) {
+			sc.Detail = fmt.Sprintf("after %d recovered panics (the last %d raised on all lanes at the same instant), %d long tasks - one per lane - do not all run at the same time: a worker is gone", n-2+rounds*L, rounds*L, L)
+			s.Violate("head-of-line-blocking", sc.Detail, sc)
+		}
+		close(hold)
+		waitUntil(tlDeadline, func() bool { return r.runningNow() == 0 })
+	}
 	cancel()
 	tlFinalChecks(s, sc, tl, r, pushes, ctx)
 	s.Evaluations++
 	s.Nontrivial(fmt.Sprintf("after-panics/%d", L))
+}
+
+func (r *tlRun) runningNow() int {
+	r.mu.Lock()
+	defer r.mu.Unlock()
+	return r.running
 }
 
 // tlPanicAfterCancel: a task that is still running when the context is cancelled panics afterwards: it is a
@@ -1380,6 +1518,26 @@ func tlManyWaiters(s *Stream, rng *Rng, L, Q, rounds int) {
 		}
 		nw := 2 + rng.Intn(6)
 		start := make(chan struct{})
+		// producers that keep trying while the lane shuts down (they only ever get the context error back)
+		stopProd := make(chan struct{})
+		var pwg sync.WaitGroup
+		if round%2 == 0 {
+			for p := 0; p < 2; p++ {
+				pwg.Add(1)
+				go func(p int) {
+					defer pwg.Done()
+					<-start
+					for i := 0; ; i++ {
+						select {
+						case <-stopProd:
+							return
+						default:
+						}
+						tl.PushTask(&tlTask{id: 100000 + p*10000 + i%10000, r: r}, i%L)
+					}
+				}(p)
+			}
+		}
 		var wwg sync.WaitGroup
 		for w := 0; w < nw; w++ {
 			wwg.Add(1)
@@ -1392,8 +1550,11 @@ func tlManyWaiters(s *Stream, rng *Rng, L, Q, rounds int) {
 		go func() { wwg.Wait(); close(allBack) }()
 		select {
 		case <-allBack:
+			close(stopProd)
+			pwg.Wait()
 		case <-time.After(tlDeadline):
-			sc.Detail = fmt.Sprintf("round %d: %d tasks pushed, %d concurrent Wait() callers", round, n, nw)
+			close(stopProd)
+			sc.Detail = fmt.Sprintf("round %d: %d tasks pushed, %d concurrent Wait() callers, producers still calling PushTask: %v", round, n, nw, round%2 == 0)
 			s.Violate("wait-does-not-return", "one of several concurrent Wait() callers did not return after cancel although every started task has returned ("+sc.Detail+")", sc)
 			return
 		}
@@ -1420,6 +1581,7 @@ func tlEnough(s *Stream) bool {
 func runTL(cfg Cfg, name string) {
 	s := NewStream(cfg.Out, name)
 	defer s.Close()
+	defer tlRecheckOldRuns(s)
 	rng := NewRng(cfg.Seed)
 	maxL, maxQ := cfg.N(3, 4), cfg.N(2, 3)
 	switch name {
@@ -1485,8 +1647,11 @@ func runTL(cfg Cfg, name string) {
 				}
 			}
 		}
-		for L := 2; L <= 3 && !tlEnough(s); L++ {
+		for L := 2; L <= 4 && !tlEnough(s); L++ {
 			tlAfterPanics(s, rng.Fork(), L)
+		}
+		for i := 0; i < cfg.N(6, 40) && !tlEnough(s); i++ {
+			tlWide(s, rng.Fork(), 16+rng.Intn(17))
 		}
 		for i := 0; i < cfg.N(40, 400); i++ {
 			if tlEnough(s) {
